@@ -1547,6 +1547,29 @@ Proof.
   - destruct (loop_map _ _ _ _ _ _ _) as [l [v' p']|[v' p']| |]; try reflexivity. destruct G.
 Qed.
 
+(* byte budget: a long-form string announcing more than maxSB is an error whatever follows
+   (no buffer of the announced size is ever made), and a list hands its children at most its
+   own budget: min mx sz.  So a string nested in a list is checked against the input length
+   no matter what the list header itself claims. *)
+Lemma string_over_budget sh mx tag r n r' :
+  0xB8 <= tag <= 0xBF -> read_size (tag - 0xB7) r = Some (n, r') -> mx < n ->
+  read_bytes sh mx (tag :: r) = HErr.
+Proof.
+  intros Ht Hs Hn. cbn [read_bytes]. ifs. rewrite Hs. destruct (mx <? n) eqn:E; [reflexivity|lia].
+Qed.
+
+Lemma size_bound_nested pre t' sh mx v p sz r tag r1 n r2 :
+  stringlike t' = true -> read_list sh v = HOk sz r ->
+  child_view sz r = tag :: r1 -> 0xB8 <= tag <= 0xBF ->
+  read_size (tag - 0xB7) r1 = Some (n, r2) -> mx < n ->
+  dec_gen pre (TList t') sh mx v p = RErr.
+Proof.
+  intros Hs Hr Hcv Ht Hsz Hn. cbn [dec_gen]. rewrite Hr. cbn beta iota zeta.
+  rewrite Hcv. rewrite loop_items_S.
+  rewrite (stringlike_err pre t' _ _ _ _ Hs); [reflexivity|].
+  eapply string_over_budget; eauto. lia.
+Qed.
+
 (* the behaviour before commit 9a1f237: a list announcing 55 bytes, followed by two,
    is accepted as a nil pointer and 53 bytes stay pending in the pooled decoder *)
 Lemma prefix_variant_refuted :
